@@ -233,6 +233,48 @@ def r20_4(ctx, rep):
            "load_model must merge defaults into the given options the same way save_model does")
 
 
+def compile_walk_total(ctx, rep, R):
+    """every *.mo file the walk of _compile_model finds is read, parsed and merged — on every iteration of the innermost loop"""
+    from ..cfg import iteration_skips
+    fn = api_fn(ctx, "_compile_model", R)
+    site = API + ":_compile_model"
+    loops = [lp for lp in walk_local(fn) if isinstance(lp, ast.For) and not any(isinstance(x, ast.For) for st in lp.body for x in ast.walk(st))
+             and any(isinstance(c.func, ast.Attribute) and c.func.attr == "parse" for st in lp.body for c in calls(st))]
+    if len(loops) != 1:
+        raise MechanismMissing(R, "the innermost loop of _compile_model that parses the files was not found")
+    lp = loops[0]
+    cfg = CFG(fn, R)
+    rep.ob(R, site, "the loop runs over all *.mo files of the directory", "'*.mo'" in norm(lp.iter) or '"*.mo"' in norm(lp.iter) or ".mo" in norm(lp.iter),
+           "the innermost loop iterates `%s`" % norm(lp.iter)[:80])
+    w = iteration_skips(cfg, lp, lambda x: x.kind in ("stmt", "with") and not isinstance(x.ast, (ast.With, ast.If)) and any(isinstance(c.func, ast.Attribute) and c.func.attr == "parse" for c in calls(x.ast)))
+    rep.ob(R, site, "each Modelica file found is parsed", w is None,
+           "an iteration over the files found can end without parsing the file: two directories (the model folder and a library, two packages) "
+           "may hold files of the same name, and each of them defines classes of its own", path=cfg.describe(w) if w else "")
+    w = iteration_skips(cfg, lp, lambda x: x.kind == "stmt" and ((isinstance(x.ast, ast.Assign) and any(isinstance(c.func, ast.Attribute) and c.func.attr == "parse" for c in calls(x.ast)))
+                                                                  or any(isinstance(c.func, ast.Attribute) and c.func.attr == "extend" for c in calls(x.ast))))
+    rep.ob(R, site, "each parsed file becomes part of the tree", w is None,
+           "an iteration can end with the parsed file neither becoming the tree nor being merged into it", path=cfg.describe(w) if w else "")
+
+
+@SPEC.rule(
+    "R20.5",
+    "a fresh compile compiles everything: _codegen_model builds the library from the function it is given on every call (no "
+    "`library on disk is newer` shortcut), so what is stored after an edit is the edited model",
+)
+def r20_5(ctx, rep):
+    from .c19 import codegen_always_builds
+    codegen_always_builds(ctx, rep, "R20.5")
+
+
+@SPEC.rule(
+    "R20.6",
+    "a fresh compile reads the current sources, all of them: every *.mo file found by the walk over the model folder and the library "
+    "folders is parsed and merged (no skip by base name or by `seen before`), so an added file takes part whatever it is called",
+)
+def r20_6(ctx, rep):
+    compile_walk_total(ctx, rep, "R20.6")
+
+
 # -- seeded variants ---------------------------------------------------------
 from ._mut import delete_stmt_where, replace_in_func  # noqa: E402
 
@@ -317,3 +359,17 @@ def _m7(mod):
         return False
 
     return mod if replace_in_func(mod, "load_model", edit) else None
+
+
+@SPEC.mutant("files whose base name was seen before are not parsed", API, "R20.6", "is parsed")
+def _m_seen_items(mod):
+    def edit(fn):
+        for n in ast.walk(fn):
+            if isinstance(n, ast.For) and "fnmatch.filter" in norm(n.iter):
+                n.body.insert(0, ast.parse("if item in _seen:\n    continue").body[0])
+                n.body.insert(1, ast.parse("_seen.add(item)").body[0])
+                fn.body.insert(1, ast.parse("_seen = set()").body[0])
+                return True
+        return False
+
+    return mod if replace_in_func(mod, "_compile_model", edit) else None
